@@ -53,7 +53,7 @@ func FuzzReceive(f *testing.F) {
 		if len(in) > 1<<16 {
 			return
 		}
-		c := &RecvCase{Cfg: SessCfg{V: 3, SeedA: 2100, SeedB: 2201, KeyA: 0, KeyB: 3}, PolA: 2, State: int(state % 10), Kind: 0, Raw: in}
+		c := &RecvCase{Cfg: SessCfg{V: 3, SeedA: 2100, SeedB: 2201, KeyA: 0, KeyB: 3}, PolA: 2, State: int(state % 11), Kind: 0, Raw: in}
 		if o := runRecv(c); o.Violation != "" {
 			t.Fatalf("VIOLATION sig=%s: %s", o.Sig, o.Violation)
 		}
